@@ -36,7 +36,7 @@ PROPS = {
         'rule': 'one case = one source text of the shared tree workload; non-trivial = accepted tree on which event balance, Enter==Iter, '
                 'sub-iteration slices, the Debug field-order witness, unwrap_node!/unwrap_locate! and get_str_trim were all evaluated; distinct by hash of (text, mode)',
         'evaluations_key': 'inputs',
-        'floors': {'quick': {'trees': 2000, 'pp_trees': 600, 'sub_iterations_checked': 200000, 'debug_witness_items': 800000, 'unwrap_checks': 150000,
+        'floors': {'quick': {'trees': 2000, 'advanced_event_views': 20000, 'pp_trees': 600, 'sub_iterations_checked': 200000, 'debug_witness_items': 800000, 'unwrap_checks': 150000,
                              'get_str_trim_checks': 120000},
                    'thorough': {'trees': 50000, 'pp_trees': 15000}},
         'technique': 'runtime monitor: stack-discipline checker over the event stream with pointer identity, slice comparison of sub-iterations, derived-Debug rendering as independent witness of field order',
@@ -107,7 +107,7 @@ PROPS = {
         'rule': 'one case = one concurrent round: 2/4/16/64 threads released on a barrier, each making 3-12 calls (state-sensitive inputs, the same input on several threads, polluting inputs, corpus programs) '
                 'with injected yields at every mutation of thread-local parser state; every result is compared with the same call run alone; distinct = distinct observed interleaving (hash of the merged hook-event order)',
         'evaluations_key': 'concurrent_calls',
-        'floors': {'quick': {'rounds': 90, 'concurrent_calls': 5000, 'overlapping_call_pairs': 20000, 'context_switches_between_hook_events': 20000, 'injected_yields': 10000},
+        'floors': {'quick': {'rounds': 90, 'rounds_with_first_use_under_contention': 30, 'rounds_with_references_taken_afterwards': 30, 'concurrent_calls': 5000, 'overlapping_call_pairs': 20000, 'context_switches_between_hook_events': 20000, 'injected_yields': 10000},
                    'thorough': {'rounds': 2000, 'concurrent_calls': 100000}},
         'technique': 'runtime monitor: concurrent stress with yields injected through the state hooks, results checked against sequential fresh-thread references; observed interleavings measured from globally sequenced hook events; TSan/Miri legs in thorough',
         'level_text': 'Real threads run the real library concurrently under injected scheduling noise; every result is compared with its sequential reference and the evidence reports how much true overlap and how many context switches between state mutations were observed.',
